@@ -22,6 +22,7 @@ void
 h_reseed(void)
 {
 	DRBG_PRE();
+	DRBG_MEMZERO();
 	uint32_t ctr0 = drbg.reseed_counter;
 	int rc;
 
